@@ -4,7 +4,7 @@
 
 use super::common::*;
 use crate::ast::Env;
-use crate::ctxfn::{set_boom, BoomFn};
+use crate::ctxfn::{set_boom, set_boom_tag, BoomFn};
 use crate::engine::build_scheme_builder;
 use crate::gen::*;
 use crate::printer::print_filter;
@@ -695,6 +695,93 @@ pub fn run(run: &Run) {
         ffi::wirefilter_clear_last_error();
         run.distinct(i ^ 0x5e95);
     });
+
+    // ---- E'. many threads panic inside match at once: every thread's last
+    // error names its own panic (fresh threads each round; a destructor that
+    // yields while the panic unwinds leaves room for the other threads' hooks)
+    if run.opts.wants("panic-storm") {
+        let threads: usize = if run.opts.variant == "miri" { 3 } else { 96 };
+        let rounds = match run.opts.variant.as_str() {
+            "miri" => 1,
+            "tsan" | "asan" | "dbg" => if run.opts.thorough() { 10 } else { 2 },
+            _ => if run.opts.thorough() { 100 } else { 6 },
+        };
+        let per_thread = 10u64;
+        let w = &worlds[0];
+        let text = "kaboom(str_m) == \"a\"";
+        let mut wrong = 0u64;
+        let mut first: Option<serde_json::Value> = None;
+        let mut observed = 0u64;
+        for round in 0..rounds {
+            let barrier = std::sync::Barrier::new(threads);
+            let outs: Vec<Result<Vec<String>, String>> = std::thread::scope(|s| {
+                let hs: Vec<_> = (0..threads)
+                    .map(|tid| {
+                        let barrier = &barrier;
+                        s.spawn(move || -> Result<Vec<String>, String> {
+                            ffi::panic::wirefilter_enable_panic_catcher();
+                            let mut r = Rng::derive(seed, "c20-storm", (round * 1000 + tid) as u64);
+                            let vals = gen_ctx(&mut r, &w.env);
+                            let mut keep: Vec<Box<[u8]>> = Vec::new();
+                            let mut cctx = ffi::wirefilter_create_execution_context(&w.scheme);
+                            set_values(w, &mut cctx, &vals, &mut r, &mut keep)?;
+                            let p = ffi::wirefilter_parse_filter(&w.scheme, text.as_ptr() as *const _, text.len());
+                            let ast = p.ast.ok_or("parse failed")?;
+                            let f = ffi::wirefilter_compile_filter(ast).filter.ok_or("compile failed")?;
+                            let mut bad = Vec::new();
+                            barrier.wait();
+                            for k in 0..per_thread {
+                                let tag = ((round as u64) << 40) | ((tid as u64) << 20) | k;
+                                set_boom_tag(tag);
+                                set_boom(3);
+                                let m = ffi::wirefilter_match(&f, &cctx);
+                                set_boom(0);
+                                let msg = last_error().map(|b| String::from_utf8_lossy(&b).into_owned()).unwrap_or_default();
+                                let own = format!("kaboom-in-execute#{}#", tag);
+                                if m.status != ffi::Status::Panic || !msg.contains(&own) || msg.matches("kaboom-in-").count() != 1 {
+                                    bad.push(format!("status {:?}, own message {:?}, last error {:?}", m.status, own, msg.chars().take(200).collect::<String>()));
+                                }
+                            }
+                            ffi::wirefilter_free_compiled_filter(f);
+                            ffi::wirefilter_free_execution_context(cctx);
+                            drop(keep);
+                            ffi::wirefilter_clear_last_error();
+                            Ok(bad)
+                        })
+                    })
+                    .collect();
+                hs.into_iter().map(|h| h.join().unwrap_or_else(|_| Err("thread died: a panic unwound into the caller".into()))).collect()
+            });
+            for o in outs {
+                observed += per_thread;
+                match o {
+                    Ok(bad) => {
+                        for b in bad {
+                            wrong += 1;
+                            first.get_or_insert_with(|| json!({"problem": b}));
+                        }
+                    }
+                    Err(e) => {
+                        wrong += 1;
+                        first.get_or_insert_with(|| json!({"problem": e}));
+                    }
+                }
+            }
+            run.distinct(hash_str(&format!("storm|{}", round)));
+        }
+        run.evaluations.fetch_add(observed, std::sync::atomic::Ordering::Relaxed);
+        run.counter("panic_storm_matches", observed);
+        run.note("panic_storm", json!({"threads_per_round": threads, "rounds": rounds, "panics_per_thread": per_thread}));
+        if wrong > 0 {
+            run.violation(
+                "C20/panic-storm/last-error-is-not-this-threads-panic",
+                "last-error",
+                "panic-storm",
+                0,
+                json!({"threads": threads, "rounds": rounds, "wrong_results": wrong, "first": first}),
+            );
+        }
+    }
 
     // ---- E. panics inside parse / compile / match become a panic status
     let n = run.opts.size(1_000, 20_000);
